@@ -48,7 +48,7 @@ CLAIMED = {
          "The receive path is stepped (hook H4: decodeData, convertToMessage, receiveMessage, handlers are the real code; the three per-connection goroutines and the 32-slot receive queue between them are not). Message delivery is observed through replies, so only reply-producing message types are distinguishable."),
  "C23": ("exploration", "4.1, 5 C23", "wire monitor on every frame and send error of real nodes in a simulated network with boundary-seeking workload",
          "With per-run knobs (maximum outgoing length from its legal minimum, response cap, request count) and a workload that packs the publisher's pool to the block size limit, every frame any node puts on the wire must fit the limit, no message a node built may be refused by its own send step as too long, and every GIVB answering a GETB must contain exactly the longest prefix of the requested blocks that fits (sizes from the harness' own encoder).",
-         "Partial: daemon.New refuses configurations below one maximum-size block, so only GIVB/GIVT truncation is reachable in a running system; GIVP/ANNT/GETT truncators and sub-minimum lengths are pure-function space. GIVT prefix content is not compared (only its length)."),
+         "Partial: daemon.New refuses limits below one maximum-size block, so GIVP truncation (peer lists are far smaller) and sub-minimum lengths stay pure-function space. With the size limits at their legal minimum (small-limits profile) GETT truncation is reached through a scripted peer announcing up to 256 unknown hashes and checked as longest fitting prefix; ANNT truncation would additionally need a pool of more than (limit-8)/32 transactions and is reached only when the workload happens to build one. GIVT prefix content is not compared (only that the frame fits and the send step accepts it)."),
  "C24": ("exploration", "4.1, 5 C24", "seeded connection-event histories against one real node, bookkeeping compared with the pool's live set after every event",
          "Scripted peers on 3 IPs x 3 ports with mirrors in {0, own, A, B} and listen ports in {0, p, q, own}: incoming connects, outgoing attempts and their success/failure, introductions, other messages, disconnects, cull/stale/ping ticks; after every event the connection list must equal the connections the gnet pool really holds plus unresolved attempts, per-IP counts / IP+mirror registry / id map / listen-address map must be exactly what that list implies, state transitions must be legal, and after removing everything all five maps must be empty.",
          "An incoming connection from exactly the address of a pending outgoing attempt (merged by the node) is kept out of the workload. Sampling."),
